@@ -24,7 +24,7 @@ from copsim.seams import Poison, RngRecorder, sterile
 PROPERTY = 'C17'
 LEVEL = 'exploration'
 TIERS = {
-    'quick': {'runs': 260, 'wall': 80, 'batch': 2},
+    'quick': {'runs': 400, 'wall': 150, 'batch': 2},
     'thorough': {'runs': 20000, 'wall': 840, 'batch': 3},
 }
 RULE = ('Each run = one simulator-generated table (2-6 columns), one (vine type, truncation), '
